@@ -35,13 +35,31 @@ structure G (c : Cfg) (a : ANode) : Prop where
   incLe : a.daInc ≤ a.n.store.height
   hM : ∀ e ∈ a.hMarks, HdrOnDA a e.1 e.2
   dM : ∀ e ∈ a.dMarks, DataOnDA a e.1 e.2
-  incSound : ∀ h, 1 ≤ h → h ≤ a.daInc → ∃ b, a.n.store.getBlock h = some b ∧
+  incSound : ∀ h, c.initialHeight ≤ h → h ≤ a.daInc → ∃ b, a.n.store.getBlock h = some b ∧
     (∃ dh, HdrOnDA a b.sh.hdr.hash dh) ∧
     (b.data.daCommitment = emptyDataHash ∨ ∃ dh, DataOnDA a b.data.daCommitment dh)
 
-theorem G_fresh (c : Cfg) (hpos : 1 ≤ c.initialHeight) : G c { n := freshNode c } :=
-  { pinv := freshNode_inv c hpos, incLe := Nat.zero_le _, hM := (by intro e he; cases he),
-    dM := (by intro e he; cases he), incSound := fun h h1 h2 => (by simp at h2; omega) }
+/-- the aggregator after `NewManager` on an empty disk: the node `freshNode c`, no marks, and the DA-included height at
+`initialHeight − 1` (heights below the initial height do not exist and need no inclusion) -/
+def freshA (c : Cfg) : ANode := { n := freshNode c, daInc := c.initialHeight - 1 }
+
+/-- `freshA` is what the model's start-up computes on an empty disk -/
+theorem restart_empty (c : Cfg) (clean : Bool) : restart c {} {} clean = some (freshA c) := by
+  obtain ⟨_, _, hkv, _⟩ := freshDisk_facts c
+  have hm : (freshNode c).store.getMeta daIncKey = none := hkv _ (by decide) (by decide)
+  unfold restart
+  rw [start_empty]
+  simp only [hm, freshA]
+  cases clean <;> simp <;> omega
+
+theorem G_fresh (c : Cfg) (hpos : 1 ≤ c.initialHeight) : G c (freshA c) := by
+  obtain ⟨hh, _, _, _⟩ := freshDisk_facts c
+  have hht : (freshNode c).store.height = c.initialHeight - 1 := hh
+  refine { pinv := freshNode_inv c hpos, incLe := ?_, hM := (by intro e he; cases he),
+           dM := (by intro e he; cases he), incSound := fun h h1 h2 => ?_ }
+  · show c.initialHeight - 1 ≤ (freshNode c).store.height; rw [hht]; exact Nat.le_refl _
+  · have : h ≤ c.initialHeight - 1 := h2
+    omega
 
 /-- the facts transfer to a node whose committed blocks are the same, whose chain is at least as high and whose DA
 double holds at least as much -/
@@ -212,56 +230,6 @@ theorem runA_mono (c : Cfg) (a : ANode) (acts : List Act) : a.daInc ≤ (runA c 
   induction acts generalizing a with
   | nil => exact Nat.le_refl _
   | cons act acts ih => exact Nat.le_trans (stepA_mono c a act) (ih _)
-
-/-! ### initial height above 1: the inclusion loop starts at height 1, which does not exist -/
-
-/-- the DA-included height is 0 and the block the inclusion loop asks for next (height 1) is not stored, although the
-chain height is at least 1 -/
-structure NoIncl (c : Cfg) (a : ANode) : Prop where
-  pinv : Inv c a.n
-  inc : a.daInc = 0
-  h1 : 1 ≤ a.n.store.height
-  none1 : a.n.store.getBlock 1 = none
-
-theorem NoIncl.fresh (c : Cfg) (hih : 2 ≤ c.initialHeight) : NoIncl c { n := freshNode c } := by
-  obtain ⟨hh, hg, _, _⟩ := freshDisk_facts c
-  refine ⟨freshNode_inv c (by omega), rfl, ?_, ?_⟩
-  · show 1 ≤ (freshDisk c).height; rw [hh]; omega
-  · show (freshDisk c).getBlock 1 = none; rw [hg, if_neg (by omega)]
-
-theorem NoIncl.idle {c : Cfg} {a : ANode} (h : NoIncl c a) : includerIter a = (a, []) := by
-  apply includerIter_idle
-  unfold incNext recHeights
-  rw [h.inc, if_neg (by have := h.h1; omega), h.none1]
-
-theorem NoIncl.step {c : Cfg} {a : ANode} (h : NoIncl c a) (act : Act) : NoIncl c (stepA c a act) := by
-  cases act with
-  | produce r e =>
-    have hs := publish_store h.pinv r e
-    refine ⟨publish_inv h.pinv r e, h.inc, ?_, ?_⟩
-    · show 1 ≤ (publish c a.n r e).1.store.height
-      have := h.h1
-      rcases hs.1 with q | q <;> omega
-    · show (publish c a.n r e).1.store.getBlock 1 = none
-      rw [hs.2 1 h.h1]; exact h.none1
-  | subH s =>
-    obtain ⟨_, _, _, hi, _⟩ := headersIter_inv a s
-    exact ⟨inv_of_same_blocks h.pinv hi.frame.blocks hi.frame.height hi.frame.lastState,
-      hi.frame.daInc.trans h.inc, by show 1 ≤ (headersIter a s).1.n.store.height; rw [hi.frame.height]; exact h.h1,
-      by show (headersIter a s).1.n.store.getBlock 1 = none; rw [hi.frame.getBlock]; exact h.none1⟩
-  | subD s =>
-    obtain ⟨_, _, _, hi, _⟩ := dataIter_inv a s
-    exact ⟨inv_of_same_blocks h.pinv hi.frame.blocks hi.frame.height hi.frame.lastState,
-      hi.frame.daInc.trans h.inc, by show 1 ≤ (dataIter a s).1.n.store.height; rw [hi.frame.height]; exact h.h1,
-      by show (dataIter a s).1.n.store.getBlock 1 = none; rw [hi.frame.getBlock]; exact h.none1⟩
-  | incl =>
-    have : stepA c a .incl = a := by show (includerIter a).1 = a; rw [h.idle]
-    rw [this]; exact h
-
-theorem NoIncl.run {c : Cfg} {a : ANode} (h : NoIncl c a) (acts : List Act) : NoIncl c (runA c a acts) := by
-  induction acts generalizing a with
-  | nil => exact h
-  | cons act acts ih => exact ih (h.step act)
 
 /-! ### clean restart -/
 
